@@ -468,3 +468,94 @@ pub fn c03_race(prop: &'static str, seed: u64, rounds: u32, replay_out: &str, pa
     }
     0
 }
+
+// ---------------------------------------------------------------------------------------------
+// C13: the dead-letter counter under concurrency (needs the test-utils feature)
+// ---------------------------------------------------------------------------------------------
+/// K threads each perform M operations that fail to deliver (tell / ask / blocking variants against
+/// an actor that has ended); the counter must advance by exactly K*M and exactly K*M records must
+/// be emitted.
+pub fn c13_counter_race(seed: u64, rounds: u32, replay_out: &str, part: &mut Part) -> i32 {
+    #[cfg(not(feature = "test-utils"))]
+    {
+        let _ = (seed, rounds, replay_out, part);
+        0
+    }
+    #[cfg(feature = "test-utils")]
+    {
+        use crate::actor::{MsgA, MsgB, SimActor, World};
+        use crate::scenario::*;
+        use crate::trace::{Clock, Recorder, K};
+        let mut x = seed.wrapping_mul(0x9E3779B97F4A7C15) | 1;
+        let mut next = |n: u64| {
+            x ^= x << 13;
+            x ^= x >> 7;
+            x ^= x << 17;
+            (x >> 11) % n
+        };
+        let rt = tokio::runtime::Builder::new_multi_thread().worker_threads(4).enable_time().build().expect("runtime");
+        for _ in 0..rounds {
+            let threads = 2 + next(15) as usize;
+            let ops = 50 + next(400) as usize;
+            let rec = Recorder::new(Clock::Real(std::time::Instant::now()), false);
+            crate::trace::set_current(Some(rec.clone()));
+            let world = std::sync::Arc::new(World { rec: rec.clone(), specs: vec![ActorSpec::default()], peers: std::sync::Mutex::new(vec![None]), us_per_ms: 1000 });
+            let (r, jh) = {
+                let _g = rt.enter();
+                rsactor::spawn::<SimActor>((0, world.clone()))
+            };
+            rt.block_on(async {
+                let _ = r.stop().await;
+                let _ = jh.await;
+            });
+            let before = rsactor::dead_letter_count();
+            let barrier = std::sync::Arc::new(std::sync::Barrier::new(threads));
+            let mut hs = vec![];
+            for t in 0..threads {
+                let r2 = r.clone();
+                let b = barrier.clone();
+                let h = rt.handle().clone();
+                hs.push(std::thread::spawn(move || {
+                    b.wait();
+                    let mut failed = 0usize;
+                    for i in 0..ops {
+                        let m = Msg { id: (t * 100_000 + i) as u32, ty: Ty::A, steps: vec![], out: Out::Ok, job: None };
+                        let err = match (t + i) % 4 {
+                            0 => r2.blocking_tell(MsgA(m), None).is_err(),
+                            1 => r2.blocking_ask(MsgB(Msg { ty: Ty::B, ..m }), None).is_err(),
+                            2 => h.block_on(r2.tell(MsgA(m))).is_err(),
+                            _ => h.block_on(r2.ask_with_timeout(MsgA(m), std::time::Duration::from_millis(50))).is_err(),
+                        };
+                        if err {
+                            failed += 1;
+                        }
+                    }
+                    failed
+                }));
+            }
+            let failed: usize = hs.into_iter().map(|h| h.join().unwrap_or(0)).sum();
+            let after = rsactor::dead_letter_count();
+            crate::trace::set_current(None);
+            let records = rec.take().iter().filter(|e| matches!(e.k, K::DeadLetter { .. })).count();
+            part.evaluations += 1;
+            let key = format!("dlrace:{threads}x{ops}");
+            if !part.nontrivial_hashes.contains(&key) {
+                part.nontrivial_hashes.push(key);
+            }
+            *part.labels.entry("counter_race_rounds".into()).or_default() += 1;
+            *part.labels.entry("counter_race_failed_ops".into()).or_default() += failed as u64;
+            if part.samples.len() < 4 {
+                part.samples.push(serde_json::json!({"dead_letter_counter_race": {"threads": threads, "ops_per_thread": ops, "failed_ops": failed, "counter_delta": after - before, "records": records}}));
+            }
+            if failed != threads * ops || (after - before) as usize != failed || records != failed {
+                let detail = format!("{threads} threads x {ops} failing operations: {failed} returned an error, dead_letter_count() advanced by {}, {records} records were emitted", after - before);
+                let path = write_replay(replay_out, "C13", "counter-race", &detail, serde_json::json!({"counter_race": {"threads": threads, "ops": ops}}));
+                println!("VIOLATION property=C13 replay={path}");
+                println!("  kind=counter-race detail={detail}");
+                part.violations.push(serde_json::json!({"kind": "counter-race", "detail": detail, "replay": path}));
+                return 1;
+            }
+        }
+        0
+    }
+}
